@@ -469,6 +469,52 @@ def _callee_name(call, cls: str):
     return None, None
 
 
+def _tailify(helper, retname: str):
+    """A copy of the helper whose `return e` statements - all in structural tail position (last statement of the body, of an
+    if/else arm, of a try body without else/finally, of an except handler, of a with body; never in a loop) and with every
+    tail position ending in a return or a raise - are `retname = e`, followed by one trailing `return retname`.  None when
+    the helper does not have that shape."""
+    h = copy.deepcopy(helper)
+    ok = True
+
+    def tail(stmts):
+        nonlocal ok
+        if not stmts:
+            ok = False
+            return
+        for st in stmts[:-1]:
+            if any(isinstance(x, ast.Return) for x in ast.walk(st)):
+                ok = False
+        last = stmts[-1]
+        if isinstance(last, ast.Return):
+            if last.value is None:
+                ok = False
+                return
+            stmts[-1] = ast.copy_location(ast.Assign([ast.Name(retname, ast.Store())], last.value, lineno=last.lineno), last)
+        elif isinstance(last, ast.Raise):
+            return
+        elif isinstance(last, ast.If):
+            tail(last.body)
+            tail(last.orelse)
+        elif isinstance(last, ast.Try) and not last.finalbody and not last.orelse:
+            tail(last.body)
+            for hd in last.handlers:
+                tail(hd.body)
+        elif isinstance(last, ast.With):
+            tail(last.body)
+        else:
+            ok = False
+    body = h.body
+    start = 1 if body and isinstance(body[0], ast.Expr) and isinstance(body[0].value, ast.Constant) and isinstance(body[0].value.value, str) else 0
+    rest = body[start:]
+    tail(rest)
+    if not ok:
+        return None
+    h.body = body[:start] + rest + [ast.Return(ast.Name(retname, ast.Load()))]
+    ast.fix_missing_locations(h)
+    return h
+
+
 def _expand(helper, call, caller, cls, target_names: set, mode: str):
     """Statements replacing the call; mode in {'expr', 'value', 'tail'}.  Returns (stmts, result expr) or None."""
     static = any(ast.unparse(d) in ("staticmethod",) for d in helper.decorator_list)
@@ -476,6 +522,15 @@ def _expand(helper, call, caller, cls, target_names: set, mode: str):
     if bound is None:
         return None
     rets = _returns(helper)
+    if mode == "value" and not (len(rets) == 1 and rets[0][1] == 0 and rets[0][0] is helper.body[-1]):
+        # several returns, all in tail position: read as assignments of the result
+        retname = next(iter(target_names)) if len(target_names) == 1 and next(iter(target_names)) not in _local_names(helper) else f"ret__{helper.name.strip('_')}"
+        h2 = _tailify(helper, retname)
+        if h2 is None:
+            return None
+        helper = h2
+        rets = _returns(helper)
+        target_names = set(target_names) | {retname}
     body = helper.body
     if body and isinstance(body[0], ast.Expr) and isinstance(body[0].value, ast.Constant) and isinstance(body[0].value.value, str):
         body = body[1:]
